@@ -124,3 +124,28 @@ Proof.
   destruct (first_aligned_spec (N.to_nat (al U)) 0 base (sz T) (al U)) as [E|E]; [|exact E].
   unfold align_offset in Hle. rewrite E in Hle. lia.
 Qed.
+
+(* <[T]>::align_to::<U>() as the caller sees it: three slices over the source's memory *)
+Definition slice_align_to (T U : ty) (s : slice) : slice * slice * slice :=
+  let r := align_to T U (addr (sptr s)) (slen s) in
+  (mkSlice (mkPtr (pre_addr r) (pre_len r * sz T)) (pre_len r),
+   mkSlice (mkPtr (mid_addr r) (mid_len r * sz U)) (mid_len r),
+   mkSlice (mkPtr (suf_addr r) (suf_len r * sz T)) (suf_len r)).
+
+(* each part is a well-formed view (its extent is its byte size), the parts tile the source in
+   order, none reaches outside it, and the middle part is aligned for U *)
+Theorem slice_align_to_tiles T U s :
+  slen s < USIZE_MAX ->
+  let '(p, m, q) := slice_align_to T U s in
+  addr (sptr p) = addr (sptr s) /\
+  avail (sptr p) = slen p * sz T /\ avail (sptr m) = slen m * sz U /\ avail (sptr q) = slen q * sz T /\
+  slen p * sz T + slen m * sz U + slen q * sz T = slen s * sz T /\
+  (slen m * sz U <> 0 -> addr (sptr m) = addr (sptr s) + slen p * sz T /\ addr (sptr m) mod al U = 0) /\
+  (slen q * sz T <> 0 -> addr (sptr q) = addr (sptr s) + slen p * sz T + slen m * sz U).
+Proof.
+  intros Hlen. unfold slice_align_to. cbn [sptr slen addr avail].
+  destruct (align_to_tiles T U (addr (sptr s)) (slen s) Hlen) as (H1 & H2 & H3 & H4 & H5).
+  repeat split; try assumption; try reflexivity.
+  - apply H2; assumption.
+  - apply H5; assumption.
+Qed.
